@@ -275,7 +275,9 @@ class CompositeTransform(BaseTransform):
     def forward(self, x):
         x = copy_array(x, xp=self.xp)
         x = self.xp.atleast_2d(x)
-        log_abs_det_jacobian = self.xp.zeros(len(x), device=self.device)
+        log_abs_det_jacobian = self.xp.zeros(
+            len(x), device=self.device, dtype=x.dtype
+        )
         if self.periodic_parameters:
             y, log_j_periodic = self._periodic_transform.forward(
                 x[..., self.periodic_mask]
@@ -298,7 +300,9 @@ class CompositeTransform(BaseTransform):
     def inverse(self, x):
         x = copy_array(x, xp=self.xp)
         x = self.xp.atleast_2d(x)
-        log_abs_det_jacobian = self.xp.zeros(len(x), device=self.device)
+        log_abs_det_jacobian = self.xp.zeros(
+            len(x), device=self.device, dtype=x.dtype
+        )
         if self.affine_transform:
             x, log_j_affine = self._affine_transform.inverse(x)
             log_abs_det_jacobian += log_j_affine
@@ -498,7 +502,7 @@ class BoundedTransform(BaseTransform):
         """
         y = (x - self.lower) / self._denom
         log_j = self._scale_log_abs_det_jacobian * self.xp.ones(
-            y.shape[0], device=get_device(y)
+            y.shape[0], device=get_device(y), dtype=y.dtype
         )
         return y, log_j
 
@@ -517,7 +521,7 @@ class BoundedTransform(BaseTransform):
         """
         x = self._denom * y + self.lower
         log_j = -self._scale_log_abs_det_jacobian * self.xp.ones(
-            x.shape[0], device=get_device(x)
+            x.shape[0], device=get_device(x), dtype=x.dtype
         )
         return x, log_j
 
@@ -634,13 +638,13 @@ class AffineTransform(BaseTransform):
     def forward(self, x):
         y = (x - self._mean) / self._std
         return y, self.log_abs_det_jacobian * self.xp.ones(
-            y.shape[0], device=get_device(y)
+            y.shape[0], device=get_device(y), dtype=y.dtype
         )
 
     def inverse(self, y):
         x = y * self._std + self._mean
         return x, -self.log_abs_det_jacobian * self.xp.ones(
-            y.shape[0], device=get_device(y)
+            y.shape[0], device=get_device(y), dtype=y.dtype
         )
 
     def config_dict(self):
